@@ -109,6 +109,25 @@ PROPERTIES = {
              "old": "                    port_def._default = None", "new": "                    port_def._root._default = None"},
         ],
     },
+    "C14": {
+        "modules": ["contracts.core_models", "contracts.c14_fifo"],
+        "level": "proof",
+        "explanation": "step contracts of the REAL methods of std.Fifo and std.Stack over a ghost model of clocked signals, for SYMBOLIC capacity N (power of two or not), index values, memory content and data. Fifo: _next_index(i) == (i+1) mod N; the concurrent block of __init__ drives empty <=> size == 0 and full <=> size == N-1 (capacity N-1); against the queue view size = (wr-rd) mod N, elem(k) = mem[(rd+k) mod N]: push appends the element and keeps every other position, pop returns the oldest element and shifts the rest, push and pop in the same clock (either order) do both -- the inductive step of 'delivers elements in exactly the order they were pushed, without loss or duplication'; locally, for shared and for separate (synchronised) index signals, push writes at and advances the producer's own index, pop / front read at and pop advances the consumer's own index. Stack (both modes): push / pop / front / reset / empty / full / size against the list view, drop-old mode discarding exactly the oldest element on a push to a full stack.",
+        "assumptions": COMMON_ASSUME + [
+            "signal semantics of a clocked context (a scheduled value becomes visible at the next clock, the last assignment wins, reads see the old value; memory writes use the index value at the time of the access) are assumed -- they are the VHDL meaning of the statements the methods emit (C03)",
+            "object state as established by __init__ (index signals of type Unsigned.upto(N-1) resp. upto(N), i.e. width bit_length, N memory elements, the flags) is the precondition of the step contracts; __init__ itself is under contract only for its empty/full block",
+            "the whole-history statement follows by induction over clocks from the step contracts and the initial state (indices 0: empty queue / stack); the induction itself is argued, not machine-checked",
+            "NOT decided: the delay configuration's index synchronisation (SyncFlag ping-pong across two contexts, _impl_sync_read_index / _impl_sync_write_index, _cmp_full / _cmp_empty per context) -- a two-process protocol over time, outside per-function contracts; element storage through std.Array serialisation is C17's subject",
+        ],
+        "canaries": [
+            {"name": "wrap-guard", "contract": "cohdl.std.utility:Fifo._next_index", "case": "not-pow2", "file": "cohdl/std/utility.py",
+             "old": "        if is_pow_two(self._max_index + 1):", "new": "        if is_pow_two(self._max_index):"},
+            {"name": "pop-reads-own-index", "contract": "cohdl.std.utility:Fifo.pop", "case": "local:pow2,separate-index-signals", "file": "cohdl/std/utility.py",
+             "old": "        return self._mem.get_elem(self._set_read_index, qualifier)", "new": "        return self._mem.get_elem(self._read_index, qualifier)"},
+            {"name": "drop-old-count", "contract": "cohdl.std.utility:Stack.push", "case": "DROP_OLD", "file": "cohdl/std/utility.py",
+             "old": "            self._cnt <<= self._count_ if self._cnt == self._count_ else (self._cnt + 1)", "new": "            self._cnt <<= self._cnt + 1"},
+        ],
+    },
     "C17": {
         "modules": ["contracts.core_models", "contracts.c17_proofs"],
         "level": "other",
